@@ -179,7 +179,7 @@ pub fn generate(out: &mut Out, tier: &str, seed: u64) {
     let thorough = tier == "thorough";
     let ctx = Ctx::new();
     let mut rng = Rng::new(seed ^ 0xC10);
-    let n = if thorough { 30000 } else { 1500 };
+    let n = if thorough { 250000 } else { 1500 };
     for i in 0..n {
         let cfg = GenCfg { max_ops: if i % 4 == 0 { 40 } else { 16 }, removals: 4, invalid: 25, values: true };
         let ops = gen_history(&mut rng, &cfg);
